@@ -15,7 +15,9 @@ oracle  : judged against the property text, no Lean involved:
           call of the write group, or make it raise, or make os.write short; then a fresh process lists the
           directory, checks the module path in {absent, complete old, complete new} and constructs a fresh
           Template which must render the CURRENT source;
-      (c) 2-8 processes constructing the same Template concurrently; all must render the current source;
+      (c) 2-8 processes constructing the same Template concurrently; all must render the current source
+          (corr: what they served and what the module path holds afterwards must be among the outcomes the
+          construct-interleaving model `modfile conc` reaches for that start state under random schedules);
       (d) same-second rewrite with bytecode caching enabled (the history of the repaired finding F-C15-2).
 """
 from __future__ import annotations
@@ -1116,6 +1118,10 @@ def prepare_state(base, state):
     elif state == "otherfile":
         sb.replace_mod(10, 1003, other=True)    # fresh mtime, right generator version, but generated from another file
         old = 1001
+    elif state == "fresh":
+        Template(filename=sb.src, module_directory=sb.moddir)   # up to date: to be reused
+        os.utime(sb.mp, (1003, 1003))
+        old = 1
     return {"src": sb.src, "moddir": sb.moddir, "cur": sb.ver, "old": old, "state": state, "clock": 1010,
             "group": 2 if state in ("magic", "otherfile") else 1}
 
@@ -1260,10 +1266,11 @@ def oracle_concurrent(ctx, root):
     ns = [2, 4, 8] if ctx.quick else [2, 3, 4, 5, 6, 7, 8]
     reps = 1 if ctx.quick else 6
     for n in ns:
-        for state in ("none", "stale", "magic", "otherfile", "future-src"):
+        for state in ("none", "stale", "magic", "otherfile", "fresh", "future-src"):
             for _ in range(reps):
                 configs.append((n, state))
     reported = set()
+    observed = []
     for n, state in configs:
         base = tempfile.mkdtemp(dir=root)
         from mako.template import Template
@@ -1277,9 +1284,11 @@ def oracle_concurrent(ctx, root):
         start_at = time.time() + 0.35
         procs = [spawn({"mode": "race", "src": sb.src, "moddir": sb.moddir, "start_at": start_at, "rounds": rounds,
                         "id": i, "delete_between": state.endswith("delete")}) for i in range(n)]
+        obs = []
         for i, p in enumerate(procs):
             rc, lines, err = finish(p)
             st["cases"] += 1
+            obs.extend((r["res"], r.get("ver")) for r in (lines[0] if lines else [("crashed", None)]) if isinstance(r, dict))
             ok = rc == 0 and lines and all(r["res"] == "served" and r["ver"] == sb.ver for r in lines[0])
             ctx.branch("concurrent:n=%d:%s:%s" % (n, state, "ok" if ok else "FAILED"))
             if not ok and "concurrent" not in reported:
@@ -1295,7 +1304,65 @@ def oracle_concurrent(ctx, root):
                                                                 "input": "n=%d state=%s" % (n, state)},
                               "module path after the race: %r" % (fin,), "oracle.concurrent")
         ctx.nontriv(("conc", n, state))
+        observed.append((n, state, sb.ver, sorted(set(obs), key=str), fin))
         shutil.rmtree(base, ignore_errors=True)
+    corr_concurrent(ctx, observed)
+
+
+MODEL_CONC_INIT = {            # state -> (initial module, source version, source mtime, clock) as prepare_state builds them
+    "none": ("none", 1, 1000, 1010),
+    "stale": ("1.10.1001.0", 2, 1005, 1010),
+    "magic": ("1.9.1003.0", 1, 1000, 1010),
+    "otherfile": ("1001.10.1003.1", 1, 1000, 1010),
+    "fresh": ("1.10.1003.0", 1, 1000, 1010),
+    "future-src": ("none", 1, 5000, 1010),
+}
+
+
+def corr_concurrent(ctx, observed):
+    """(c) against the model: the outcomes the model reaches for the same start state under random complete
+    schedules of n interleaved constructs (per-process served version; final module) must contain what the real
+    processes did"""
+    st = ctx.stream("corr.concurrent_outcomes")
+    nsched = 40 if ctx.quick else 200
+    reqs, owner = [], []
+    keys = sorted({(n, state) for n, state, _, _, _ in observed})
+    for n, state in keys:
+        init, v, sm, ck = MODEL_CONC_INIT[state]
+        for k in range(nsched):
+            sched = [p for p in range(n) for _ in range(26)]
+            ctx.rng.shuffle(sched)
+            if k == 0:
+                sched = [p for p in range(n) for _ in range(26)]          # sequential
+            elif k == 1:
+                sched = [p for _ in range(26) for p in range(n)]          # lock step
+            reqs.append("modfile conc %s %d %d %d %d %s" % (init, v, sm, ck, n, " ".join(map(str, sched))))
+            owner.append((n, state))
+    outs = ask_many(ctx, reqs)
+    reach = {}
+    for key, o in zip(owner, outs):
+        procs, fin = o.split("|")
+        r = reach.setdefault(key, {"procs": set(), "final": set()})
+        for pr in procs.split(";"):
+            if pr.startswith("served:"):
+                r["procs"].add(("served", int(pr[7:].split(":")[0])))
+            else:
+                r["procs"].add((pr, None))
+        if fin == "none":
+            r["final"].add(("absent",))
+        else:
+            src, magic, comp, stamp, fil = fin.split("@")[0].split(":")
+            r["final"].add(("complete" if comp == "1" else "broken", int(src), int(magic), fil == "0"))
+    for n, state, cur, obs, fin in observed:
+        st["cases"] += 1
+        r = reach[(n, state)]
+        ctx.branch("conc-model:%s:outcomes=%d/finals=%d" % (state, len(r["procs"]), len(r["final"])))
+        bad = [o for o in obs if tuple(o) not in r["procs"]]
+        f = tuple(fin[:4]) if fin[0] == "complete" else (fin[0],)
+        if bad or f not in r["final"]:
+            ctx.disagree("corr.concurrent_outcomes", {"kind": "conc", "n": n, "state": state},
+                         {"procs": sorted(r["procs"], key=str), "final": sorted(r["final"], key=str)},
+                         {"procs": obs, "final": fin})
 
 
 # --------------------------------------------------------------------------- (d) same-second rewrite, bytecode on
